@@ -15,9 +15,10 @@ regenerated table `Facts.genStateFields`):
   carried – flows from one type to the next: `hasNew`, `getsetMethods` (new); `srcCtorParams`,
             `destCtorParams`, `getsetMethods`, `destGetSetMethods` (map); `overlay` (base, by design)
 
-The carried fields other than `overlay` are defects (C08).  Whether each one is carried or reset is a
-PARAMETER of the model (`Leaks`), so that the model can follow a `fix:` commit by flipping one Boolean
-in `codeToday`; the theorems are stated for every value of the parameter.
+The carried fields other than `overlay` were defects (C08), repaired by the `fix:` commits 2659527 (new) and
+002876f (map).  Whether each one is carried or reset is a PARAMETER of the model (`Leaks`): `codeBeforeFix`
+is the code before those commits, `codeToday = noLeaks` the code at HEAD; the theorems are stated for every
+value of the parameter.
 
 The package as the analysis sees it is `hand-written files ∪ generated files on disk ∪ overlay`
 (generatorbase.go:32, 206-215, 359-363).  Only one kind of fact is ever read back from generated
